@@ -67,13 +67,30 @@ pub fn apply(map: &Map, relocs: &Relocs, big: bool) -> Map {
 }
 
 /// Garbage in every relocated field: a reader that uses the stored bytes instead of the relocation is exposed.
-fn scramble(map: &Map, relocs: &Relocs) -> Map {
+/// `mode` 0: a byte pattern; 1: all ones (what a linker leaves in a discarded address, -1); 2: -2 in the section's
+/// byte order. The stored bytes of a relocated field must never matter, whatever they look like.
+fn scramble(map: &Map, relocs: &Relocs, mode: u8, big: bool) -> Map {
     let mut out = map.clone();
     for (name, rs) in relocs {
         let bytes = out.get_mut(name).unwrap();
         for r in rs {
-            for i in 0..r.size as usize {
-                bytes[r.offset + i] = 0xa5 ^ (i as u8).wrapping_mul(0x3b);
+            let n = r.size as usize;
+            // the tombstone look-alikes are for addresses (relocations against symbols); offsets keep the byte pattern
+            // (an all-ones CIE pointer would be a CIE id, which is a constant and decides what the entry is)
+            let mode = if matches!(r.target, w::RelocationTarget::Symbol(_)) { mode } else { 0 };
+            for i in 0..n {
+                bytes[r.offset + i] = match mode {
+                    0 => 0xa5 ^ (i as u8).wrapping_mul(0x3b),
+                    1 => 0xff,
+                    _ => {
+                        let lsb = if big { n - 1 } else { 0 };
+                        if i == lsb {
+                            0xfe
+                        } else {
+                            0xff
+                        }
+                    }
+                };
             }
         }
     }
@@ -422,7 +439,7 @@ fn check_units(ch: &mut Choices, cx: &mut Ctx) -> R {
         }
     }
     // reading side: relocating reader over scrambled fields == plain reader over applied bytes
-    let scrambled = scramble(&rmap, &relocs);
+    let scrambled = scramble(&rmap, &relocs, (m.units.iter().map(|u| u.entries.len()).sum::<usize>() % 3) as u8, m.big);
     let tabs = tables(&relocs);
     let endian = if m.big { RunTimeEndian::Big } else { RunTimeEndian::Little };
     let empty: Vec<u8> = Vec::new();
@@ -603,7 +620,7 @@ fn check_frames(ch: &mut Choices, cx: &mut Ctx) -> R {
         fail!("c18/write/applied-differs-from-direct", "section {}: lengths {} / {}, first difference at {:#x}: applied {:02x?} direct {:02x?}; relocations {:?}", name, got.len(), dbytes.len(), at, &got[at.saturating_sub(4)..(at + 12).min(got.len())], &dbytes[at.saturating_sub(4)..(at + 12).min(dbytes.len())], relocs[name]);
     }
     // reading side
-    let scrambled = scramble(&rmap, &relocs);
+    let scrambled = scramble(&rmap, &relocs, (relocs[name].len() % 3) as u8, big);
     let tabs = tables(&relocs);
     let mut a = Vec::new();
     let mut b = Vec::new();
